@@ -211,6 +211,9 @@ func (fx *Fx) builtinCall(st *State, name string, call *ast.CallExpr, spec bool)
 		return []Val{fx.appendCall(st, call, spec)}
 	case "copy":
 		return fx.copyCall(st, call, spec)
+	case "clear":
+		fx.clearCall(st, call, spec)
+		return nil
 	case "delete":
 		mv := fx.eval(st, call.Args[0], spec)
 		k := fx.eval(st, call.Args[1], spec)
@@ -333,6 +336,52 @@ func (fx *Fx) copyCall(st *State, call *ast.CallExpr, spec bool) []Val {
 		dst.S, r, lo, lo, nv, src.S, src.X, lo, dst.S, dst.X, dst.S, r))
 	fx.store(st, dp.loc, Val{T: dst.T, S: dst.S, X: r})
 	return []Val{{T: types.Typ[types.Int], S: SInt, X: nv}}
+}
+
+// clear(X), clear(X[lo:]), clear(X[:hi]), clear(X[lo:hi]) on a slice held in an addressable place: the elements of the
+// window become the zero value, length, capacity and backing array stay. (clear of a map is not modelled.)
+func (fx *Fx) clearCall(st *State, call *ast.CallExpr, spec bool) {
+	dstExpr := ast.Unparen(call.Args[0])
+	if _, isMap := fx.typeOf(dstExpr).Underlying().(*types.Map); isMap {
+		panic(unsupported("builtin clear of a map"))
+	}
+	var loE, hiE ast.Expr
+	if sl, ok := dstExpr.(*ast.SliceExpr); ok && !sl.Slice3 {
+		loE, hiE = sl.Low, sl.High
+		dstExpr = sl.X
+	}
+	dp := fx.evalPlace(st, dstExpr, spec)
+	if dp.loc == nil {
+		panic(unsupported("clear of a non-addressable slice"))
+	}
+	dst := fx.load(st, dp.loc)
+	if dst.S == SStr || !strings.HasPrefix(dst.S, "Seq_") {
+		panic(unsupported("clear of " + dst.S))
+	}
+	sl, ok := dst.T.Underlying().(*types.Slice)
+	if !ok {
+		panic(unsupported("clear of " + dst.T.String()))
+	}
+	dlen := fx.seqLen(dst)
+	lo, hi := "0", dlen
+	if loE != nil {
+		lo = fx.eval(st, loE, spec).X
+	}
+	if hiE != nil {
+		hi = fx.eval(st, hiE, spec).X
+	}
+	if fx.inSpec == 0 && (loE != nil || hiE != nil) {
+		g := and(app("<=", "0", lo), app("<=", lo, hi), app("<=", hi, app("cap_"+dst.S, dst.X)))
+		fx.oblige(st, "bounds", exprText(call.Args[0]), g, "")
+		st.assume(g)
+	}
+	r := fx.d.freshConst("cleared", dst.S)
+	st.assume(app("=", app("len_"+dst.S, r), dlen))
+	st.assume(app("=", app("cap_"+dst.S, r), app("cap_"+dst.S, dst.X)))
+	st.assume(app("=", app("bk_"+dst.S, r), app("bk_"+dst.S, dst.X)))
+	st.assume(fmt.Sprintf("(forall ((i Int)) (! (= (select (arr_%s %s) i) (ite (and (<= %s i) (< i %s)) %s (select (arr_%s %s) i))) :pattern ((select (arr_%s %s) i))))",
+		dst.S, r, lo, hi, fx.d.zeroOf(sl.Elem()), dst.S, dst.X, dst.S, r))
+	fx.store(st, dp.loc, Val{T: dst.T, S: dst.S, X: r})
 }
 
 // ---------- static calls ----------
